@@ -2,6 +2,8 @@
 rendering of a window must not depend on the windows decoded before it (caches, leftovers, counters).  Cases that
 were rendered one by one on fresh parsers are fed again as one long stream (same thread, and pairwise interleaved
 on two threads) through a single parser and every rendering is compared with the stand-alone one."""
+import copy
+import pickle
 import io
 import os
 
@@ -77,15 +79,30 @@ def run_stream(res, key_prefix, cases, rng, label):
                         t = parser.feed(e)
                         if t is not None:
                             got.setdefault((gi, t.ktraces[0].tid), []).append(str(t))
+                    # (the checkpoint is a deep copy, or a pickle round trip - a checkpoint file, a parser handed to a
+                    # worker process: equal strings, ints and tuples come back as OTHER objects)
+                    how = 'copy.deepcopy' if (gi // 2) % 2 == 0 else 'pickle round trip'
                     try:
-                        clone = copy.deepcopy(parser)
+                        clone = copy.deepcopy(parser) if how == 'copy.deepcopy' else pickle.loads(pickle.dumps(parser))
                     except Exception as x:
-                        res.notes['parser_checkpoints'] = f'copy.deepcopy(parser) raises {type(x).__name__}: not exercised'
+                        res.notes['parser_checkpoints'] = f'{how} of the parser raises {type(x).__name__}: not exercised'
                         clone = None
                     if clone is not None:
-                        for e in events[cut:]:
-                            clone.feed(e)
+                        from_clone = [str(t) for t in (clone.feed(e) for e in events[cut:]) if t is not None]
                         res.count('parser_checkpoints_resumed')
+                        res.count('parser_checkpoints_by_' + how.replace(' ', '_').replace('.', '_'))
+                        from_original = []
+                        for e in events[cut:]:
+                            t = parser.feed(e)
+                            if t is not None:
+                                got.setdefault((gi, t.ktraces[0].tid), []).append(str(t))
+                                from_original.append(str(t))
+                        if from_clone != from_original:
+                            res.violation(f'{key_prefix}-checkpoint-resumes-differently', f'{label}: a checkpoint of the parser '
+                                          f'({how}) taken after record {cut} of a window, resumed with the rest of the records, '
+                                          f'renders {from_clone}; the original renders {from_original}', {})
+                            return
+                        continue
                     events = events[cut:]
                 if mode == 'handed_over':
                     # the stream is advanced by one OS thread, then - with the window still open - by another (a consumer
